@@ -491,6 +491,22 @@ TEMPLATES = {
          "character(*, ck), intent(in) :: s"],
         ["end module m"],
     ],
+    "type-selectors": [
+        ["module m"],
+        ["character(len=8, kind=1) :: s", "character(kind=1, len=8) :: s", "character(8, kind=1) :: s", "character(8, 1) :: s",
+         "CHARACTER(LEN=8, KIND=1) :: S", "character ( 8 , 1 ) :: s"],
+        ["character(len=n, kind=ck) :: t", "character(n, ck) :: t", "character(n, kind=ck) :: t", "character(kind=ck, len=n) :: t",
+         "character(len=n, kind=ck)::t"],
+        ["character(len=:), allocatable :: d", "character(:), allocatable :: d", "CHARACTER(LEN=:), ALLOCATABLE :: D"],
+        ["end module m"],
+    ],
+    "kind-selectors": [
+        ["module m"],
+        ["integer(kind=8) :: i8", "integer(8) :: i8", "integer*8 i8", "INTEGER(KIND=8) :: I8", "integer*8 :: i8"],
+        ["real(kind=wp) :: r", "real(wp) :: r", "REAL(KIND=WP) :: R", "real ( wp ) :: r"],
+        ["logical(kind=1) :: l1", "logical(1) :: l1", "logical*1 l1"],
+        ["end module m"],
+    ],
     "attribute-statements": [
         ["subroutine s(a, w, k)"],
         # a group of lines per slot: attribute on the declaration vs. a separate attribute statement
@@ -607,6 +623,8 @@ EXPECTED = {
                                       "functions": [["f", {"args": [["x", {}]], "retvar": "r"}]]}]]},
     "declarations": {"modules": [["m", {"variables": [["n", {}], ["v", {}], ["c", {}]]}]]},
     "declarations-2": {"modules": [["m", {"variables": [["d", {}], ["p", {}], ["flag", {}], ["z", {}], ["s", {}]]}]]},
+    "type-selectors": {"modules": [["m", {"variables": [["s", {}], ["t", {}], ["d", {}]]}]]},
+    "kind-selectors": {"modules": [["m", {"variables": [["i8", {}], ["r", {}], ["l1", {}]]}]]},
     "attribute-statements": {"subroutines": [["s", {"args": [["a", {}], ["w", {}], ["k", {}]]}]]},
     "attribute-statements-2": {"modules": [["m", {"variables": [["n", {}], ["q", {}], ["p", {}], ["t", {}]]}]]},
     "attribute-statements-optional": {"subroutines": [["s", {"args": [["w", {}]]}]]},
@@ -654,6 +672,17 @@ def _facts(tname, f):
         expect(v.vartype == "real" and str(v.kind) == "8" and sorted(a.lower() for a in v.attribs) == ["allocatable", "dimension(n)"],
                "v: real(8), dimension(n), allocatable")
         expect(c.vartype == "character" and str(c.strlen) == "10", "c: character(len=10)")
+    if tname == "type-selectors":
+        m = f.modules[0]
+        s_, t_, d_ = var(m, "s"), var(m, "t"), var(m, "d")
+        expect(s_.vartype == "character" and str(s_.strlen) == "8" and str(s_.kind) == "1", "s: character(len=8, kind=1)")
+        expect(str(t_.strlen).lower() == "n" and str(t_.kind).lower() == "ck", "t: character(len=n, kind=ck)")
+        expect(str(d_.strlen) == ":" and [a.lower() for a in d_.attribs] == ["allocatable"], "d: character(len=:), allocatable")
+    if tname == "kind-selectors":
+        m = f.modules[0]
+        expect(var(m, "i8").vartype == "integer" and str(var(m, "i8").kind) == "8", "i8: integer(kind=8)")
+        expect(str(var(m, "r").kind).lower() == "wp", "r: real(kind=wp)")
+        expect(var(m, "l1").vartype == "logical" and str(var(m, "l1").kind) == "1", "l1: logical(kind=1)")
     if tname == "declarations-2":
         m = f.modules[0]
         expect(var(m, "d").vartype == "double precision", "d: double precision")
